@@ -10,5 +10,7 @@ pub mod model;
 pub mod eng_world;
 pub mod eng_storage;
 pub mod eng_join;
+pub mod eng_changeset;
+pub mod eng_panicdrop;
 pub mod eng_saveload;
 pub mod eng_dispatch;
